@@ -61,6 +61,8 @@ struct Model {
     words: Vec<String>,
     config: std::collections::BTreeMap<String, bool>,
     ignored: Vec<Identity>,
+    /// the very lints that were ignored: (text index, language, number of imported words then, lint)
+    ignored_exact: Vec<(usize, bool, usize, CoreLint)>,
     dialect: u8,
 }
 
@@ -111,6 +113,7 @@ pub fn test_api(c: &ApiCase, ctx: &mut CaseCtx) -> Result<(), String> {
         words: vec![],
         config: Default::default(),
         ignored: vec![],
+        ignored_exact: vec![],
         dialect: c.dialect,
     };
     let texts = &c.texts;
@@ -230,6 +233,16 @@ pub fn test_api(c: &ApiCase, ctx: &mut CaseCtx) -> Result<(), String> {
                         ));
                     }
                 }
+                // a lint that was ignored on this very text stays hidden (as long as the
+                // dictionary is what it was: token metadata is part of harper's notion of context)
+                for (iti, imd, nwords, il) in &model.ignored_exact {
+                    if *iti == ti && *imd == *markdown && *nwords == model.words.len() && got_inner.contains(il) {
+                        return Err(format!(
+                            "step {step}: lint {}..{} {:?} of {:?} was ignored earlier but is reported again",
+                            il.span.start, il.span.end, il.message, t
+                        ));
+                    }
+                }
                 // imported words are not flagged in their exact form
                 for gl in &got_inner {
                     if gl.lint_kind == harper_core::linting::LintKind::Spelling {
@@ -288,6 +301,7 @@ pub fn test_api(c: &ApiCase, ctx: &mut CaseCtx) -> Result<(), String> {
                 let inner = inner_of(&lints[i])?;
                 let doc = model.doc(&texts[*ti], *md);
                 model.ignored.push(identity(&inner, &doc));
+                model.ignored_exact.push((*ti, *md, model.words.len(), inner.clone()));
                 let l = harper_wasm::Lint::from_json(lints[i].to_json()).map_err(|e| e.to_string())?;
                 linter.ignore_lint(texts[*ti].clone(), l);
                 pending_ignore = true;
@@ -337,6 +351,7 @@ pub fn test_api(c: &ApiCase, ctx: &mut CaseCtx) -> Result<(), String> {
             Op::ClearIgnored => {
                 linter.clear_ignored_lints();
                 model.ignored.clear();
+                model.ignored_exact.clear();
             }
             Op::RebuildFromExports => {
                 let words = linter.export_words();
